@@ -37,13 +37,13 @@ func next() uint64 {
 	return v
 }
 
-func U8() uint8    { return uint8(next()) }
-func U16() uint16  { return uint16(next()) }
-func U32() uint32  { return uint32(next()) }
-func U64() uint64  { return next() }
-func I64() int64   { return int64(next()) }
-func Int() int     { return int(next()) }
-func Bool() bool   { return next()&1 == 1 }
+func U8() uint8   { return uint8(next()) }
+func U16() uint16 { return uint16(next()) }
+func U32() uint32 { return uint32(next()) }
+func U64() uint64 { return next() }
+func I64() int64  { return int64(next()) }
+func Int() int    { return int(next()) }
+func Bool() bool  { return next()&1 == 1 }
 func Choice(n int) int {
 	v := int(next())
 	Assume(v >= 0 && v < n)
